@@ -149,7 +149,12 @@ class Gen:
                     return {'@type': 'liteServer.getMasterchainInfo'}        # an object WITHOUT fields: its encoding is the 4-byte id alone
                 return {'@type': 'liteServer.query', 'data': {'@type': 'liteServer.getTime'}}     # ... and one level down
             if p == 'string':
-                a = ch.choose(path + ':string', 2 * len(LENGTHS))
+                a = ch.choose(path + ':string', 2 * len(LENGTHS) + 2)
+                if a >= 2 * len(LENGTHS):
+                    # a text that BEGINS with the four id bytes of a bundled constructor (some ids are printable ASCII): text is text
+                    ids = sorted(i for i in self.ids if all(32 <= c < 127 for c in i))
+                    pre = ids[(a - 2 * len(LENGTHS)) * (len(ids) // 2)].decode()
+                    return pre + ['abcd', ' is odd'][a - 2 * len(LENGTHS)]
                 return self.text(LENGTHS[a % len(LENGTHS)], a >= len(LENGTHS))
         if k == 'vector':
             n = [2, 0, 1, 3][ch.choose(path + ':veclen', 4)] if depth < 4 else 0
